@@ -221,6 +221,8 @@ def compileCF (cur : Nat) (lab : Option Label) : Stmt → CS → CS
         let cs := cs.emit .enterFinally
         let finOff := cs.size - lbl
         let cs := cs.emit (.emit (.finE i))
+        -- compiler_stmt.go (7631e60): the override applies to the try block and the catch clause only
+        let cs := cs.modTop (fun blk => { blk with breaking := none })
         let cs := compileCF cur none f cs
         (cs.emit .leaveFinally, finOff)
       else (cs.emit .leaveTry, 0)
@@ -382,6 +384,8 @@ structure TryFrame where
   catchPos : Option Nat
   finallyPos : Option Nat
   finallyRet : Option Nat := none
+  /-- vm.result at the time leaveTry entered the finally block (921daaa): the parked value of a pending return -/
+  result : Val := 0
   deriving Repr
 
 /-- vm.go:111 iterStackItem: `sp = none` is `iter == nil` (for-in enumeration, or a closed record) -/
@@ -495,7 +499,8 @@ def step (vm : VM) : Instr → VM
     | tf :: rest =>
       match tf.finallyPos with
       | some p =>
-        let tf' : TryFrame := { tf with finallyRet := some (vm.pc + 1), finallyPos := none, catchPos := none }
+        let tf' : TryFrame := { tf with finallyRet := some (vm.pc + 1), finallyPos := none, catchPos := none,
+                                        result := vm.result }
         let vm' := vm.setSp tf.sp
         { vm' with pc := p, tries := tf' :: rest }
       | none => { vm with tries := rest }.next
@@ -515,7 +520,7 @@ def step (vm : VM) : Instr → VM
       match tf.exc with
       | some v => throwV (some v) vm
       | none => match tf.finallyRet with
-        | some r => { vm with pc := r }
+        | some r => { vm with pc := r, result := tf.result }   -- `if ret >= 0 { vm.result = res }`
         | none => vm.next
     | [] => vm.next
   | .jump off => vm.jmp off
